@@ -171,6 +171,9 @@ def run_config(chk, config):
 
 def run(chk):
     run_config(chk, "default")
+    # the specified language also fixes the extents: declared lengths, offset pad, payload (C08's obligations)
+    import rules.c08 as c08
+    c08.run_config(chk, "default")
     if chk.tier == "thorough":
         for cfg in ("debug", "release"):
             run_config(chk, cfg)
